@@ -34,6 +34,11 @@ pub struct RelayMap {
 
 impl PartialEq for RelayMap {
     fn eq(&self, other: &Self) -> bool {
+        // Clones share one lock: taking its read lock twice deadlocks once a writer queues
+        // up in between.
+        if Arc::ptr_eq(&self.relays, &other.relays) {
+            return true;
+        }
         let this = self.relays.read().expect("poisoned");
         let that = other.relays.read().expect("poisoned");
         this.eq(&*that)
